@@ -14,6 +14,7 @@
 //           S                      extend-from-secondaries
 //           R                      CoreState::reset
 //           Z                      TrackInitParams::reset_track_ids (Stepper::reseed)
+//           G                      (observation only) print "G <case> <op> x..." = x of each slot's geometry state
 // stdout: "D <case> <op> <kind> ..." one line per op (see dump()); kind 8 =
 //         op skipped because an exception was not followed by R.
 #include "trackinit_common.hh"
@@ -134,8 +135,12 @@ int main()
                             is >> ev >> pid >> bad;
                             p.particle_id = ParticleId(pid);
                             p.energy = units::MevEnergy(1);
-                            p.position = bad ? Real3{1e7, 0, 0}
-                                             : Real3{0, 0, 0};
+                            // bad: 0 origin, 1 outside the world (geometry
+                            // init fails), 2 / 3 inside at x = +1 / -1
+                            p.position = bad == 1   ? Real3{1e7, 0, 0}
+                                         : bad == 2 ? Real3{1, 0, 0}
+                                         : bad == 3 ? Real3{-1, 0, 0}
+                                                    : Real3{0, 0, 0};
                             p.direction = {0, 0, 1};
                             p.time = 0;
                             p.event_id = EventId(ev);
@@ -171,6 +176,19 @@ int main()
                     case 'R':
                         st.reset();
                         break;
+                    case 'G': {
+                        // observation only (not part of the differential):
+                        // x coordinate of the geometry state of every slot
+                        std::cout << "G " << caseno << ' ' << opi;
+                        auto const& params = *core->ptr<MemSpace::native>();
+                        for (size_type i = 0; i < n; ++i)
+                        {
+                            CoreTrackView track(params, st.ref(), TrackSlotId{i});
+                            std::cout << ' ' << track.make_geo_view().pos()[0];
+                        }
+                        std::cout << '\n';
+                        continue;
+                    }
                     case 'Z':
                         core->init()->reset_track_ids(st.stream_id(),
                                                       &st.ref().init);
